@@ -23,7 +23,7 @@ ASSUMPTIONS = [
     'determinism = for the same input bytes, two runs (different seed, hash function, table iteration order) produce the same hunk ranges; checked pairwise between explored paths of a job (jobs with <= 400 paths)',
     'max_occurrences=100 give-up branch of the histogram matcher is outside the bound',
 ]
-BUDGET = {'quick': 280, 'thorough': 3000}
+BUDGET = {'quick': 900, 'thorough': 3600}
 F = 'core/src/diff.rs'
 BV64 = lambda n: z3.BitVec(n, 64)
 
@@ -54,6 +54,7 @@ def jobs(tier):
                 n = sum(k for inp in sh for k, _ in inp)
                 out.append(dict(name=f'c-tok-{tok}-{cmp_}-' + '_'.join(''.join(f'{n_}{"n" if nl else "x"}' for n_, nl in inp) or 'e' for inp in sh), what='c', api='for_tokenizer', tok=tok, cmp=cmp_,
                                 shape=sh, rung=(1 if tok == 'find_line_ranges' else (2 if n <= 2 else 3)), weight=8 ** n, split=('enumerate', 8) if n >= 4 else None))
+    if tier == 'quick': out = [j for j in out if j['rung'] <= 1]
     return out
 
 def run_job(ix, job, tier):
